@@ -1,20 +1,44 @@
 // scratch probes against the real API (no harness model in the loop)
-use automerge::transaction::Transactable;
 use automerge::*;
-use std::str::FromStr;
+
+fn marks(d: &AutoCommit, t: &ObjId) -> Vec<String> {
+    d.marks(t).map(|v| v.iter().map(|m| format!("{}..{} {}={}", m.start, m.end, m.name(), m.value())).collect()).unwrap_or_default()
+}
 
 fn main() {
-    let bytes = std::fs::read("/verif/out/dump/iso-R0.bin").unwrap();
-    let actor = ActorId::from(hex::decode("5070ffffffffffffffffffffffffffffffffffffffffffffffffffffffffffff").unwrap());
-    let h = ChangeHash::from_str("9837570aa8a481cf6186b13db3e2a025a36a09353c2d4714fbda00ce9c1b1d98").unwrap();
-    let mut d = AutoCommit::load(&bytes).unwrap().with_actor(actor);
-    println!("changes {} actors: {:?}", d.get_changes(&[]).len(), d.get_changes(&[]).iter().map(|c| c.actor_id().to_hex_string()).collect::<std::collections::BTreeSet<_>>());
-    d.isolate(&[h]);
-    for i in 0..6 {
-        let r = std::panic::catch_unwind(std::panic::AssertUnwindSafe(|| {
-            d.put(ROOT, "iso", i).unwrap();
-            d.get_heads()
-        }));
-        println!("op {i}: {:?}", r.map(|h| h.len()).map_err(|_| "PANIC"));
+    let dir = "/verif/out/dump/net";
+    let mut files: Vec<String> = std::fs::read_dir(dir).unwrap().map(|e| e.unwrap().file_name().to_string_lossy().to_string()).filter(|f| f.ends_with("P1.bin")).collect();
+    files.sort();
+    let actor = ActorId::from(hex::decode(std::fs::read_to_string(format!("{dir}/00000-restore-P1.actor")).unwrap().trim()).unwrap());
+    for enc in [TextEncoding::UnicodeCodePoint, TextEncoding::Utf8CodeUnit, TextEncoding::Utf16CodeUnit, TextEncoding::GraphemeCluster] {
+        let mut d: Option<AutoCommit> = None;
+        let mut bad = false;
+        for f in &files {
+            let bytes = std::fs::read(format!("{dir}/{f}")).unwrap();
+            if f.contains("restore") {
+                let mut x = AutoCommit::load_with_options(&bytes, LoadOptions::new().text_encoding(enc)).unwrap().with_actor(actor.clone());
+                // a first transaction of the new actor that ends up empty (deleting a key that does not exist)
+                use automerge::transaction::Transactable;
+                let m = x.get(ROOT, "m").unwrap().map(|v| v.1).unwrap();
+                let r = x.delete(&m, "no-such-key");
+                println!("  delete of a missing key: {:?}, commit -> {:?}", r.map_err(|e| e.to_string()), x.commit());
+                d = Some(x);
+                continue;
+            }
+            let doc = d.as_mut().unwrap();
+            let r = doc.load_incremental(&bytes);
+            let t = doc.get(ROOT, "t").unwrap().map(|x| x.1);
+            if let Some(t) = t {
+                let re = AutoCommit::load_with_options(&doc.save(), LoadOptions::new().text_encoding(enc)).unwrap();
+                let (a, b) = (marks(doc, &t), marks(&re, &t));
+                println!("{enc:?} {f}: load_incremental {:?}; marks in memory {:?} / after reload {:?} {}", r.map_err(|e| e.to_string()), a, b, if a != b { "<<< DIFFERENT" } else { "" });
+                if a != b {
+                    bad = true;
+                }
+            }
+        }
+        if bad {
+            break;
+        }
     }
 }
